@@ -27,10 +27,13 @@ structure Cfg where
   /-- the client's `RecvMsg` of a call without server streaming (NewStream) waits for the handler's return
   after the single response and gives the handler's error instead of the response (fix 14df317) -/
   holdResponse : Bool
+  /-- `SendHeader` fails once the call's context has ended, so neither a late SendHeader / SendMsg nor the
+  flush in `Close` makes header metadata visible that was only staged when the client aborted (fix 1e9d1bd) -/
+  sendFailsAfterEnd : Bool
   deriving DecidableEq, Repr
 
-def Cfg.current : Cfg := ⟨true, true, true, true, true, true⟩
-def Cfg.legacy : Cfg := ⟨false, false, false, false, false, false⟩
+def Cfg.current : Cfg := ⟨true, true, true, true, true, true, true⟩
+def Cfg.legacy : Cfg := ⟨false, false, false, false, false, false, false⟩
 
 /-- Message objects live in a heap: `cells` maps a reference to the payload stored there (newest
 binding first), `next` is the next fresh reference. -/
@@ -68,21 +71,38 @@ def setHeader (c : Cfg) (w : State) (md : MD) : State × Bool :=
     else ({ w with header := w.header ++ md }, false)
   else ({ w with header := w.header ++ md }, false)
 
-/-- `serverStream.SendHeader`: error if the latch is closed, else join and close the latch. -/
+/-- `serverStream.SendHeader` (current code): error if the call's context has ended (nothing can be sent
+any more: what is only staged never reaches the client; checked first, before the lock: 0ba2ade), error if
+the latch is closed, else join and close the latch.  (`ctx.Err()` of the stream context: non-nil after the caller's context ended; the handler does
+not call SendHeader after `Close`, which is the only other way that context ends.) -/
 def sendHeader (w : State) (md : MD) : State × Bool :=
+  if w.ctxErr.isSome then (w, true)
+  else if w.headerC then (w, true)
+  else ({ w with header := w.header ++ md, headerC := true }, false)
+
+/-- `SendHeader` before 1e9d1bd: the context was not looked at. -/
+def sendHeaderOld (w : State) (md : MD) : State × Bool :=
   if w.headerC then (w, true)
   else ({ w with header := w.header ++ md, headerC := true }, false)
+
+def sendHeaderC (c : Cfg) (w : State) (md : MD) : State × Bool :=
+  if c.sendFailsAfterEnd then sendHeader w md else sendHeaderOld w md
 
 def setTrailer (w : State) (md : MD) : State := { w with trailer := w.trailer ++ md }
 
 /-- `sendHeaderIfNeeded` = `SendHeader(nil)` with the error ignored; first thing `SendMsg` does. -/
 def sendHeaderIfNeeded (w : State) : State := (sendHeader w []).1
 
+def sendHeaderIfNeededC (c : Cfg) (w : State) : State := (sendHeaderC c w []).1
+
 /-- `ClientServerStream.Close(err)`: (current code: flush the header latch,) record closeErr, close
 serverSend, cancel the stream context. -/
 def close (c : Cfg) (w : State) (err : Fin) : State :=
-  let w := if c.flushOnClose then sendHeaderIfNeeded w else w
+  let w := if c.flushOnClose then sendHeaderIfNeededC c w else w
   { w with closed := some err }
+
+@[simp] theorem sendHeaderC_current (w : State) (md : MD) : sendHeaderC Cfg.current w md = sendHeader w md := rfl
+@[simp] theorem sendHeaderIfNeededC_current (w : State) : sendHeaderIfNeededC Cfg.current w = sendHeaderIfNeeded w := rfl
 
 def abort (w : State) (a : Abort) : State := { w with ctxErr := some a }
 
@@ -183,9 +203,9 @@ def xfer (c : Cfg) (w : State) (dir : Dir) (m : Nat) (reuse : Bool) : State × N
 
 def impl (c : Cfg) : Impl State where
   setHeader := setHeader c
-  sendHeader := sendHeader
+  sendHeader := sendHeaderC c
   setTrailer := setTrailer
-  preSend := sendHeaderIfNeeded
+  preSend := sendHeaderIfNeededC c
   xfer := xfer c
   close := close c
   abort := abort
